@@ -136,6 +136,10 @@ _GRID = {}
 
 CUSTOM_ESTS = {
     "center": lambda a: a[a.shape[0] // 2, a.shape[1] // 2, a.shape[2] // 2],
+    # user functions registered under the name of a predefined estimate
+    # (the user's function is the one that must be applied)
+    "sum": lambda a: np.sum(a[1:-1, 1:-1, 1:-1]),
+    "var": lambda a: np.var(a[::2]),
     "zmoment": lambda a: np.mean(a * _GRID["fd"].z),
     "xymoment": lambda a: np.sum(a * _GRID["fd"].x * _GRID["fd"].y),
     "corner": lambda a: a[0, 0, 0],
@@ -861,6 +865,11 @@ def _group(draw, names, table):
     i = 0
     while i < len(names):
         nm = names[i]
+        if nm in table and nm in BUILTIN_ESTS and table is CUSTOM_ESTS \
+                and draw(st.booleans()):
+            out.append(nm)          # the predefined estimate of that name
+            i += 1
+            continue
         if nm in table:
             if i + 1 < len(names) and names[i + 1] in table and \
                     draw(st.booleans()):
@@ -1051,7 +1060,11 @@ def generic_cases():
               calls=[dict(n=2, repeat=False, est=1, vars_kw="list"),
                      dict(n=4, repeat=False, est="empty", vars_kw="list"),
                      dict(n=0, repeat=False, vars_kw="omit")])
-    return [g1, g2, g3, g4, g5, g6]
+    # user estimators registered under predefined names
+    g7 = dict(g5, ests=[["sum"], "max", ["var", "center"], "mean"],
+              calls=[dict(n=3, repeat=False, est="all", vars_kw="list"),
+                     dict(n=3, repeat=False, vars_kw="list")])
+    return [g1, g2, g3, g4, g5, g6, g7]
 
 
 def generic_wide():
